@@ -23,7 +23,7 @@ Proof.
       { subst F. cbv beta. cbn [seqo uncont]. rewrite (Hin i (or_introl eq_refl)). reflexivity. }
       rewrite S. destruct (IH ((acc ++ [get_single (Z.to_nat k) (Z.to_nat i) PX]) ++ [get_single (Z.to_nat k) (Z.to_nat i) PZ]) i z0 (fun j Hj => Hin j (or_intror Hj))) as [i1 E].
       exists i1. rewrite E. rewrite <- !app_assoc. reflexivity. }
-  destruct (L (pyrange k) [] 0 [] (pyrange_in k)) as [i1 E]. rewrite E. cbn [seqo finish app]. f_equal. f_equal.
+  destruct (L (pyrange k) [] 0 [] (pyrange_in k)) as [i1 E]. rewrite E. cbn [unloop seqo finish app]. f_equal. f_equal.
   unfold pyrange. rewrite flat_map_concat_map, map_map, <- flat_map_concat_map.
   apply flat_map_ext. intros a. rewrite Nat2Z.id. reflexivity.
 Qed.
